@@ -1,14 +1,105 @@
 package main
 
 import (
+	"flag"
 	"fmt"
-	"golang.org/x/tools/go/packages"
-	"golang.org/x/tools/go/ssa"
-	"golang.org/x/tools/go/ssa/ssautil"
+	"os"
+	"sort"
+	"strings"
+	"time"
+
+	"gvc/sym"
 )
 
-var _ = packages.Load
-var _ = ssautil.AllPackages
-var _ ssa.BuilderMode
+func main() {
+	if len(os.Args) < 2 {
+		fmt.Fprintln(os.Stderr, "usage: gvc <verify|check|replay> ...")
+		os.Exit(2)
+	}
+	switch os.Args[1] {
+	case "verify":
+		cmdVerify(os.Args[2:])
+	case "check":
+		cmdCheck(os.Args[2:])
+	default:
+		fmt.Fprintln(os.Stderr, "unknown command", os.Args[1])
+		os.Exit(2)
+	}
+}
 
-func main() { fmt.Println("gvc") }
+// verify: developer command — verify selected functions, print every obligation.
+func cmdVerify(args []string) {
+	fs := flag.NewFlagSet("verify", flag.ExitOnError)
+	fn := fs.String("fn", "", "comma-separated function keys (default: all targets)")
+	prop := fs.String("prop", "", "only obligations tagged with this property")
+	repo := fs.String("repo", "/repo", "repository directory")
+	verif := fs.String("verif", "/verif", "verif directory")
+	timeout := fs.Int("timeout", 10, "per-query timeout (s)")
+	jobs := fs.Int("jobs", 8, "parallel queries")
+	dump := fs.String("dump", "", "directory for failed queries / generated code")
+	verbose := fs.Bool("v", false, "verbose")
+	fs.Parse(args)
+	t0 := time.Now()
+	e := sym.NewEngine(sym.Config{RepoDir: *repo, VerifDir: *verif, DumpDir: *dump, Verbose: *verbose})
+	if err := e.Load(); err != nil {
+		fmt.Fprintln(os.Stderr, "load error:", err)
+		os.Exit(2)
+	}
+	fmt.Printf("loaded in %.1fs\n", time.Since(t0).Seconds())
+	want := map[string]bool{}
+	for _, f := range strings.Split(*fn, ",") {
+		if f != "" {
+			want[f] = true
+		}
+	}
+	for _, fc := range e.Targets() {
+		if len(want) > 0 && !want[fc.Key] {
+			continue
+		}
+		if *prop != "" && !sym.HasTag(fc.B.Tags, *prop) {
+			continue
+		}
+		t1 := time.Now()
+		n0 := len(e.Obligs)
+		e.VerifyFn(fc)
+		fmt.Printf("  %-40s %4d obligations  %d paths  (%.2fs)\n", fc.Key, len(e.Obligs)-n0, e.Stats["paths:"+fc.Key], time.Since(t1).Seconds())
+	}
+	for _, er := range e.Errors {
+		fmt.Println("TOOL-ERROR:", er)
+	}
+	t2 := time.Now()
+	e.Discharge(e.Obligs, sym.DischargeOpts{TimeoutS: *timeout, Jobs: *jobs, DumpDir: *dump, Models: true})
+	fmt.Printf("discharge: %.1fs\n", time.Since(t2).Seconds())
+	cnt := map[string]int{}
+	for _, ob := range e.Obligs {
+		cnt[ob.Status]++
+		if ob.Status != "discharged" || *verbose {
+			solver := ""
+			secs := 0.0
+			if ob.Result != nil {
+				solver = ob.Result.Solver
+				secs = ob.Result.Seconds
+			}
+			fmt.Printf("  [%s] %s #%d (%s %.2fs) path=%s\n", ob.Status, ob.Name, ob.Ord, solver, secs, strings.Join(ob.Path, ","))
+		}
+	}
+	var ks []string
+	for k := range cnt {
+		ks = append(ks, k)
+	}
+	sort.Strings(ks)
+	for _, k := range ks {
+		fmt.Printf("%s: %d\n", k, cnt[k])
+	}
+	if len(e.Errors) > 0 {
+		os.Exit(2)
+	}
+	if cnt["discharged"] != len(e.Obligs) {
+		os.Exit(1)
+	}
+}
+
+func cmdCheck(args []string) {
+	fmt.Fprintln(os.Stderr, "check: not built yet")
+	os.Exit(2)
+}
